@@ -200,7 +200,7 @@ def merge_stats(stats):
     return out
 
 
-def hist_stage(rep, stage, run_cmd, engine, trace_module, tcfg, hist_files, mode, what_prefix, sigfn=None, consts=None):
+def hist_stage(rep, stage, run_cmd, engine, trace_module, tcfg, hist_files, mode, what_prefix, sigfn=None, consts=None, tkey="t"):
     """Execute history part files with the harness, validate the traces, classify rejections."""
     t0 = time.time()
     traces, sums = run_parts(run_cmd + ["-mode", mode], hist_files, stage)
@@ -213,7 +213,7 @@ def hist_stage(rep, stage, run_cmd, engine, trace_module, tcfg, hist_files, mode
         part = int(re.search(r"-(\d+)$", res["dir"]).group(1))
         with open(hist_files[part]) as f:
             lines = f.read().split("\n")
-        hist = json.loads(lines[rec["t"]])
+        hist = json.loads(lines[rec[tkey]])
         cfg = json.loads(lines[0])["cfg"]
         sig = sigfn(rec, trace, why, hist) if sigfn else "%s:%s:%s" % (engine, rec["ev"], why)
         what = "%s at event %s (rejected by %s) after a history of %d ops" % (what_prefix, rec["ev"], why, len(hist))
@@ -802,6 +802,34 @@ def check_C09(rep):
     nested_stages(rep, "c09", "NestedTrace_C09.cfg", "slab leak or dangling reference")
 
 
+def check_C20(rep):
+    rep.rule = ("TLC enumerates every healthy labelled reference forest over N slabs (N=4: 125, N=5: 1296) with two owner patterns and every "
+                "single corruption of the four kinds (referenced slab deleted - as a pending deletion, a committed deletion, or missing from the "
+                "ledger -, one root more than expected, a second reference to a slab, a foreign owner), proving in the model that each corrupted "
+                "graph is unhealthy; every case is built in a real storage (root arrays whose elements are slab references), fully loaded, and "
+                "CheckStorageHealth / GetAllChildReferences must give the verdict of the Healthy predicate and the true roots / references; the same "
+                "corruptions are applied to the committed storages of simulated nested-container walks")
+    quick = rep.tier == "quick"
+    n = 4 if quick else 5
+    sel = None if quick else (lambda c, key: c["kind"] == "none" or frac(key + rep.seed, 1, 4))
+    files, cnt, total = model_histories(rep, "Health.tla", "Health.cfg", {"N": n, "EmitCases": "TRUE"},
+                                        "Health N=%d: all healthy forests x all single corruptions" % n, {"cfg": {}}, sel, "c20-mc")
+    rep.exhaustive = quick
+    rep.distinct.update(range(cnt))
+
+    def sig(rec, trace, why, hist):
+        return "health:%s:%s:%s" % (rec["kind"], rec["how"], why)
+    hist_stage(rep, "c20-cases", ["health-run"], "health", "HealthTrace.tla", "HealthTrace_C20.cfg", files, "full",
+               "CheckStorageHealth / GetAllChildReferences disagrees with the Healthy predicate", sigfn=sig)
+    rep.stages["c20-cases"]["selected_of_cases"] = [cnt, total]
+    wf, wn = sim_histories(rep, "Nested.tla", "Nested.cfg", {"MaxC": 8, "MaxE": 8, "Sizes": "{12, 60, 110, 130}", "Persist": "FALSE"},
+                           "Nested walks (storages to corrupt)", {"cfg": {"T": 256}}, "c20-walks", 40 if quick else 600, 100 if quick else 200)
+    base = len(rep.distinct)
+    rep.distinct.update(range(base, base + wn))
+    hist_stage(rep, "c20-walk-storages", ["health-walks"], "health", "HealthTrace.tla", "HealthTrace_C20.cfg", wf, "full",
+               "CheckStorageHealth disagrees with the Healthy predicate on a storage produced by a valid history", sigfn=sig, tkey="h")
+
+
 def check_C03(rep):
     rep.rule = ("(a) storage level: SlabStorage closure, every explored history replayed, commit / recreate / retrieve events strict, "
                 "BaseOnlyInCommit + TempNeverWritten + CommitOK + DropReverts; (b) container level: TLC-explored array histories with "
@@ -901,4 +929,5 @@ CHECKS = {
     "C12": check_C12,
     "C14": check_C14,
     "C15": check_C15,
+    "C20": check_C20,
 }
